@@ -54,6 +54,9 @@ def run(ctx):
             us = rng.sample(UNITS, ctx.n(5, 16))
             jobs.append({'op': 'estimate', 'lib': lib, 'from_smiles': smi, 'Ts': [298.15, round(rng.uniform(300, 900), 1)],
                          'props': ('cp', 'h', 's', 'g'), 'dim': {'units': us, 'elements': True}})
+            if rng.random() < 0.5:
+                # the library object decomposes ANOTHER molecule between making the estimate and asking it
+                jobs[-1]['then_decomp'] = rng.choice(['C', 'CC', 'CCO', 'CCCCCCCC', 'C=C', 'OCCO'])
     # spellings with hydrogens written inside brackets (explicit H counts, stereo centres, explicit [H] atoms)
     for lib in [l for l in libs if l in molgen.GAS_LIBS]:
         for smi in ['[CH3][CH3]', '[H]C([H])([H])C', 'C[C@H](O)CC', '[CH3]C', 'C[CH2]O', '[CH3][CH2][OH]', 'C[C@@H](C)CC', '[CH4]', 'C([H])([H])=C']:
